@@ -40,6 +40,9 @@ def main(argv=None):
         deep = len(c.d["events"]) <= 3 if quick else fam.gen.canon(c.d) in seed_keys
         jobs.append((c, 2 if deep else 1, 100000, "c04"))
     cfgs = cfgs + big
+    longc = fam.long_configs(fam.gather_defs(["CHAIN", "ONE", "SIR", "BD"], 0)[0])
+    jobs += [(c, 0, 10, "c04") for c in longc]
+    cfgs = cfgs + longc
     res = pool.pmap(stoch.explore_config, jobs, chunksize=1)
     ex, steps, capped, nout = fam.summarize_l2(run, res, cfgs)
     # explicit-state search through the real step functions
@@ -62,6 +65,7 @@ def main(argv=None):
         "L2_steps_checked": steps,
         "configurations": len(cfgs),
         "large_population_configurations": len(big),
+        "long_run_configurations": [c.name for c in longc],
         "large_population_rule": "populations of 800-1000 individuals %s, modes %s, poisson answers relative to the requested mean "
                                  "(rounded mean | 0 | mean+3 sigma+1 | 10^7), horizon between the 3rd and 4th time of the all-default "
                                  "execution, deviation bound 2 (quick: 1 for definitions with more than 3 events; thorough: 1 off the seeds); "
